@@ -6,7 +6,7 @@ import os,subprocess,json,sys,glob,re
 VERIF=os.path.dirname(os.path.dirname(os.path.abspath(__file__)))
 ENV=dict(os.environ,GOFLAGS='-mod=mod',GOPROXY='off',GOSUMDB='off',GOTOOLCHAIN='local')
 RELATED={'C01':['C01','C07'],'C02':['C02'],'C03':['C03'],'C04':['C04','C16'],'C05':['C05','C19'],'C06':['C06'],'C07':['C07','C01'],'C08':['C08','C12'],'C09':['C09','C16'],'C10':['C10','C03'],
- 'C11':['C11','C12'],'C12':['C12','C11','C08'],'C13':['C13'],'C14':['C14','C06'],'C15':['C15'],'C16':['C16'],'C17':['C17','C03'],'C18':['C18'],'C19':['C19','C05'],'C20':['C20']}
+ 'C11':['C11','C12'],'C12':['C12','C11','C08'],'C13':['C13'],'C14':['C14','C06'],'C15':['C15'],'C16':['C16'],'C17':['C17','C03'],'C18':['C18'],'C19':['C19','C05'],'C20':['C20','C13']}
 def sh(cmd,cwd=None,env=None,timeout=3600):
     p=subprocess.run(cmd,shell=True,cwd=cwd,env=env or ENV,capture_output=True,text=True,timeout=timeout)
     return p.returncode,(p.stdout+p.stderr)
